@@ -57,6 +57,7 @@ structure St where
   seen : List InstId                   -- the receiver's SeenInstances() (last listing)
   lastBy : List (InstId × Nat)         -- Syncer.lastByInstance
   committed : List (InstId × Nat)      -- what the cleaner was told (SetCommitted)
+  bgListed : Bool                      -- the receiver's own goroutine has done its first listing
   pc : Pc
   deriving Repr, DecidableEq
 
@@ -116,7 +117,7 @@ def sendReturned (c : LoopCfg) (s : St) (who : Caller) (txnID : Nat) : St :=
   | .loop => afterSend c s
 
 /-- run from the current yield point to the next one -/
-def go (c : LoopCfg) (b : Bucket) (s : St) (i : In) : St × Bucket :=
+def goRaw (c : LoopCfg) (b : Bucket) (s : St) (i : In) : St × Bucket :=
   match s.pc with
   | .boot =>
     let hasData := s.env.lastTxn > 0
@@ -157,9 +158,15 @@ def go (c : LoopCfg) (b : Bucket) (s : St) (i : In) : St × Bucket :=
   | .sleep => ({ s with pc := .top }, b)
   | .exited _ => (s, b)
 
+/-- `go`: one segment; when the loop reaches its main loop for the first time the receiver's
+    own goroutine is started and lists the bucket once -/
+def go (c : LoopCfg) (b : Bucket) (s : St) (i : In) : St × Bucket :=
+  let (s', b') := goRaw c b s i
+  if s'.pc = .top ∧ ¬ s'.bgListed then ({ s' with seen := instancesOf b', bgListed := true }, b') else (s', b')
+
 def init (env : Env) : St :=
   { env := env, lastSynced := 0, hasDataAtStart := false, waiting := [], seen := [], lastBy := [],
-    committed := [], pc := .boot }
+    committed := [], bgListed := false, pc := .boot }
 
 /-- the receiver listed the bucket (RunOnce): SeenInstances follows -/
 def listed (b : Bucket) (s : St) : St := { s with seen := instancesOf b }
